@@ -197,3 +197,25 @@ ADDED6 = {
 for _pid, _extra in ADDED6.items():
     t, text, note, ref = CLAIMED[_pid]
     CLAIMED[_pid] = (t, text + _extra, note, ref)
+
+ADDED7 = {
+ "C01": " Round 7: no exit of the application region before the call form has been evaluated (an ill-formed call still evaluates its operands first); the binder's argument and result rules adopted for builtin calls (C01.builtin-call-*).",
+ "C02": " Round 7: a binding changes only through def in its own scope: C01's scope, lookup and def rules adopted (C02.binding-*).",
+ "C03": " Round 7: LispError.Is decides by the thrown objects and never by an error's text (which carries the position); no return reports success between a fallible call and the test of its error (whole runtime).",
+ "C06": " Round 7: every return of the printer's keyword branch has the keyword shape; no branch of the reading code compares a count with a constant limit.",
+ "C07": " Round 7: no builtin hands the reader an environment (its constructors run under Background()); the try body's time share is a constant fraction below 1 of the remaining time on every path, conditional only on the deadline's existence.",
+ "C09": " Round 7: update function literals the headers pass to swap! call no caller-supplied function value.",
+ "C10": " Round 7: every call of a reference's Deref passes the caller's own context.",
+ "C11": " Round 7: C09's read-modify-write and install rules adopted for shared atoms (C11.atom-*).",
+ "C12": " Round 7: the macro expansion at the top of the loop dominates every special-form region and the application.",
+ "C13": " Round 7: no builtin answers nil without an error on the out-of-range edge of an index-against-length test; the binder's nil-argument, slot, count and result rules adopted (C13.binder-*).",
+ "C14": " Round 7: counted element loops visit every index; no test on the two values skips the recursive comparison inside a comparison loop.",
+ "C15": " Round 7: the preamble pattern ends in a greedy capture of the rest of the line (checked on the parsed pattern); no count limits in the reading code.",
+ "C16": " Round 7: the REPL carries accumulated lines into the next round only after the classifier said 'incomplete'; single-token readers consume exactly one token and call no other parsing function.",
+ "C18": " Round 7: Stepper and the stepping flags are read only by the stepping code (EVAL's prologue and loop bottom, entry of the body helper, code already under a stepper), never inside a special form.",
+ "C19": " Round 7: C01's body/order/once rules adopted for the do-wrapped and load-file routes; C11's package-state inventory adopted (eval evaluates in the environment it was registered in).",
+ "C20": " Round 7: a nil argument is boxed as reflect.Zero of the MalType interface and ValueOf is applied only to arguments known non-nil; the error/no-error decision of the result mappers is the comparison of the error result's interface value with nil; the name a function is bound under is the override exactly as given or the derived name.",
+}
+for _pid, _extra in ADDED7.items():
+    t, text, note, ref = CLAIMED[_pid]
+    CLAIMED[_pid] = (t, text + _extra, note, ref)
